@@ -28,6 +28,7 @@ class Tokenizer:
         self._call_macro = False
         self._with_macro = False
         self._proc_macro = False
+        self._macro_from: tuple[int, int] | None = None  # end of the delimiter before the call-macro argument being read
         self._end_parens: Final = {
             ")": "(",
             "]": "[",
@@ -77,6 +78,17 @@ class Tokenizer:
             return True
         return False
 
+    def _source_text(self, start: tuple[int, int], end: tuple[int, int]) -> str | None:
+        """The source text between two positions, or None when some line of it is not known to this tokenizer."""
+        if start >= end:
+            return ""
+        lines = self.get_lines(list(range(start[0], end[0] + 1)))
+        if not all(lines):
+            return None
+        if len(lines) == 1:
+            return lines[0][start[1] : end[1]]
+        return lines[0][start[1] :] + "".join(lines[1:-1]) + lines[-1][: end[1]]
+
     def consume_macro_params(self) -> TokenInfo:  # noqa: C901, PLR0912
         # loop until we get , or ) without consuming it
         start: tuple[int, int] | None = None
@@ -86,6 +98,7 @@ class Tokenizer:
         string = ""
         line = ""
         comma = False
+        after = self._macro_from or self._tokens[-1].end  # where the text of this argument starts: after '!(' or the comma
         while True:
             tok = next(self._tokengen)
             if tok.type == Token.ENDMARKER:
@@ -102,10 +115,12 @@ class Tokenizer:
                 if tok.is_exact_type(")"):
                     self._stack.append(tok)
                     self._call_macro = False
+                    self._macro_from = None
                     break
 
                 if tok.is_exact_type(","):
                     comma = True
+                    self._macro_from = tok.end
                     break
             if end is not None and tok.start[0] > end[0] and not string.endswith("\n"):
                 # a backslash continuation has no token of its own: take it from the rest of the previous token's last line
@@ -119,6 +134,11 @@ class Tokenizer:
             else:
                 string += tok.string
 
+        # the argument is the source text between its delimiters (white space, comments and backslash continuations
+        # included); the token strings are the fallback where the source lines are not at hand
+        text = self._source_text(after, tok.start)
+        if text is not None:
+            string = text
         if (not string) and self._stack:
             # empty params
             return self._stack.pop()
